@@ -1,0 +1,10 @@
+//go:build verif
+
+// C14: the instance name of a snap, as used by the change-conflict checks of overlord/snapstate
+// (govc, /verif). Only compiled with -tags verif.
+
+package snap
+
+//@ func InstanceName
+//@   props C14
+//@   ensures result == ite(instanceKey != "", snapName + "_" + instanceKey, snapName)
